@@ -49,7 +49,7 @@ func (sa *StructAccessor) Set(key string, value interface{}) error {
 	newVal := reflect.ValueOf(value)
 
 	// set directly if type matches
-	if newVal.Kind() == field.Kind() {
+	if newVal.Kind() == field.Kind() && newVal.Type().AssignableTo(field.Type()) {
 		field.Set(newVal)
 		return nil
 	}
@@ -97,7 +97,23 @@ func (sa *StructAccessor) Set(key string, value interface{}) error {
 		default:
 			return fmt.Errorf("tried to set field %s (%s) to a %s value", key, field.Kind().String(), newVal.Kind().String())
 		}
+
+		// strings and bools of another (named) type
+	case reflect.String:
+		if newVal.Kind() != reflect.String {
+			return fmt.Errorf("tried to set field %s (%s) to a %s value", key, field.Kind().String(), newVal.Kind().String())
+		}
+		field.SetString(newVal.String())
+	case reflect.Bool:
+		if newVal.Kind() != reflect.Bool {
+			return fmt.Errorf("tried to set field %s (%s) to a %s value", key, field.Kind().String(), newVal.Kind().String())
+		}
+		field.SetBool(newVal.Bool())
+
 	default:
+		if newVal.IsValid() && newVal.Kind() == field.Kind() {
+			return fmt.Errorf("tried to set field %s (%s) to a %s value", key, field.Type().String(), newVal.Type().String())
+		}
 		return fmt.Errorf("tried to set field %s (%s) to a %s value", key, field.Kind().String(), newVal.Kind().String())
 	}
 
